@@ -183,11 +183,19 @@ Balanced(log, open) ==
          [] e.op = "close" -> open = e.a /\ Balanced(Tail(log), "")
          [] e.op \in {"get", "list", "yield"} -> open = e.a /\ Balanced(Tail(log), open)
          [] OTHER -> Balanced(Tail(log), open)
+\* the objects yielded: file by file in the order of the flow; the order of the objects of one file is not
+\* documented (same bag); when a missing key raises, whatever was yielded before must be among the expected objects
+Count(s, t) == Cardinality({j \in 1..Len(s) : s[j] = t})
+SameBag(s, t) == Len(s) = Len(t) /\ \A j \in 1..Len(s) : Count(s, s[j]) = Count(t, s[j])
 LogOkRead(sc, log) ==
-  LET exp == ExpectedRead(sc) IN
+  LET exp == ExpectedRead(sc)
+      ys == Ops(log, {"yield"})
+      got == [j \in 1..Len(ys) |-> <<ys[j].a, ys[j].b, ys[j].c>>]
+      want == [j \in 1..Len(exp.out) |-> <<exp.out[j].f, exp.out[j].k, exp.out[j].c>>]
+  IN
   /\ exp.ok => Balanced(log, "")
-  /\ [j \in 1..Len(Ops(log, {"yield"})) |-> <<Ops(log, {"yield"})[j].a, Ops(log, {"yield"})[j].b, Ops(log, {"yield"})[j].c>>]
-       = [j \in 1..Len(exp.out) |-> <<exp.out[j].f, exp.out[j].k, exp.out[j].c>>]
+  /\ exp.ok => SameBag(got, want) /\ [j \in 1..Len(got) |-> got[j][1]] = [j \in 1..Len(want) |-> want[j][1]]
+  /\ ~exp.ok => \A j \in 1..Len(got) : Count(want, got[j]) > 0
   /\ \A j \in 1..Len(Ops(log, {"open"})) : Ops(log, {"open"})[j].b = "read"
 LogOkTree(sc, log) ==
   /\ TreeOk(sc) => \A j \in 1..Len(Ops(log, {"entry"})) : Ops(log, {"entry"})[j].b = Needed(sc)
@@ -262,12 +270,12 @@ Scenarios == ReadScenarios \cup TreeScenarios \cup {sc \in WriteScenarios : Writ
 (***************************************************************************)
 (* The machine: one call of the protocol per step.                         *)
 (***************************************************************************)
-VARIABLES sc, i, open, opened, closed, yielded, fills, enabled, written
-vars == <<sc, i, open, opened, closed, yielded, fills, enabled, written>>
-P == Protocol(sc)
-Init == /\ sc \in Scenarios /\ i = 1 /\ open = "" /\ opened = <<>> /\ closed = <<>>
+VARIABLES sc, proto, i, open, opened, closed, yielded, fills, enabled, written
+vars == <<sc, proto, i, open, opened, closed, yielded, fills, enabled, written>>
+P == proto              \* = Protocol(sc), computed once per behaviour
+Init == /\ sc \in Scenarios /\ proto = Protocol(sc) /\ i = 1 /\ open = "" /\ opened = <<>> /\ closed = <<>>
         /\ yielded = 0 /\ fills = <<>> /\ enabled = {} /\ written = 0
-Step(ops) == i <= Len(P) /\ P[i].op \in ops /\ i' = i + 1 /\ UNCHANGED sc
+Step(ops) == i <= Len(P) /\ P[i].op \in ops /\ i' = i + 1 /\ UNCHANGED <<sc, proto>>
 Open == /\ Step({"open"}) /\ open' = P[i].a /\ opened' = Append(opened, P[i].a)
         /\ UNCHANGED <<closed, yielded, fills, enabled, written>>
 Close == /\ Step({"close"}) /\ open' = "" /\ closed' = Append(closed, P[i].a)
@@ -289,7 +297,7 @@ Spec == Init /\ [][Next]_vars
 Done == i > Len(P)
 
 \* ---- invariants
-ProtocolOk == LogOk(sc, P)
+ProtocolOk == i = 1 => LogOk(sc, P)       \* a property of the whole protocol: checked once per behaviour
 ExpectedYields == Done => yielded = Len(Expected(sc).out)
 AtMostOneOpen == Len(opened) - Len(closed) \in {0, 1}
 YieldWhileOpen == (i <= Len(P) /\ P[i].op = "yield" /\ sc.mode = "read") => open = P[i].a
@@ -301,7 +309,7 @@ FillsInOrder == sc.mode = "write" => fills = SubSeq(sc.vals, 1, Len(fills))
 WriteAfterFills == (sc.mode = "write" /\ written = 1) => fills = SubSeq(sc.vals, 1, NFilled(sc))
 \* by default every key name is read once per file ("only the last cycle is yielded")
 EachKeyOnce ==
-  (sc.mode = "read" /\ sc.all) =>
+  (i = 1 /\ sc.mode = "read" /\ sc.all) =>
      \A v \in 1..Len(sc.flow) :
         LET r == ReadKeys(sc, sc.files[sc.flow[v].f], E, KeysFor(sc, sc.files[sc.flow[v].f])).out IN
         \A j1, j2 \in 1..Len(r) : j1 # j2 => r[j1].k # r[j2].k
